@@ -17,9 +17,14 @@ type Opt struct {
 	FileSize     int64 `json:"fileSize"`
 	Sync         byte  `json:"sync"` // 0 No, 1 Always, 2 Threshold
 	BytesPerSync uint  `json:"bytesPerSync"`
+	// Slash: the directory is passed with a trailing separator ("…/db/"): another spelling of the same directory
+	Slash bool `json:"slash,omitempty"`
 }
 
 func (o Opt) KV(dir string) kv.Options {
+	if o.Slash {
+		dir += "/"
+	}
 	return kv.Options{
 		DirPath:               dir,
 		DataFileSize:          o.FileSize,
@@ -34,7 +39,11 @@ func (o Opt) KV(dir string) kv.Options {
 }
 
 func (o Opt) String() string {
-	return fmt.Sprintf("idx%d/sh%d/io%d/fs%d/sync%d:%d", o.Index, o.Shards, o.IO, o.FileSize, o.Sync, o.BytesPerSync)
+	s := fmt.Sprintf("idx%d/sh%d/io%d/fs%d/sync%d:%d", o.Index, o.Shards, o.IO, o.FileSize, o.Sync, o.BytesPerSync)
+	if o.Slash {
+		s += "/dir-with-trailing-slash"
+	}
+	return s
 }
 
 // DefaultOpt mirrors the configuration the repository's tests run in.
@@ -82,5 +91,6 @@ func GenOpt(t *rapid.T, label string, p OptProfile) Opt {
 	}
 	o.Sync = Pick(t, syncs, label+".sync")
 	o.BytesPerSync = Pick(t, bpsChoices, label+".bps")
+	o.Slash = Pct(t, 8, label+".slash")
 	return o
 }
